@@ -207,7 +207,7 @@ def draw_pf(rng, fspec):
     return round(float(pf), 3) if pf != p_lo else float(p_lo)
 
 
-GRID_FAMILIES = ("uniform", "quadratic", "geometric", "random", "bigstep", "single")
+GRID_FAMILIES = ("uniform", "quadratic", "geometric", "random", "bigstep", "single", "integer")
 
 
 def draw_grid(rng, n=None, families=GRID_FAMILIES, lattice=False, nmax=40):
@@ -240,6 +240,13 @@ def draw_grid(rng, n=None, families=GRID_FAMILIES, lattice=False, nmax=40):
         jit = 10.0 ** rng.uniform(-7, -2)
         inc = np.array([1.0 + jit * rng.uniform(-1, 1) for _ in range(n - 1)]) * (T / max(1, n - 1))
         t = np.concatenate([[0.0], np.cumsum(inc)])
+    elif fam == "integer":
+        # whole-number times, handed to the library as an int64 array (days on production are often ints)
+        inc = np.array([rng.choice([1, 1, 2, 3, 7]) for _ in range(n - 1)], dtype=float)
+        t = np.concatenate([[0.0], np.cumsum(inc)])
+        t0 = float(rng.choice([0, 0, 1, 5, 30]))
+        t = t + t0
+        return {"family": fam, "t": [float(v) for v in t], "dtype": "int64"}
     elif fam == "ramp":
         # slowly growing increments: consecutive steps differ by a small relative amount
         r = 1.0 + 10.0 ** rng.uniform(-6, -1)
@@ -260,6 +267,19 @@ def draw_grid(rng, n=None, families=GRID_FAMILIES, lattice=False, nmax=40):
 def same_length_variant(rng, grid, lattice=False):
     """Another grid with the same number of points and different values."""
     n = len(grid["t"])
+    if n > 2 and rng.random() < 0.3 and grid.get("dtype") is None:
+        # same length AND same end points, different interior spacing (a memo keyed on shape/ends is stale)
+        t = np.asarray(grid["t"], dtype=float)
+        span = t[-1] - t[0]
+        if span > 0:
+            w = ((t - t[0]) / span) ** rng.choice([2.0, 0.5, 3.0])
+            tb = t[0] + span * w
+            tb[0], tb[-1] = t[0], t[-1]
+            if lattice:
+                q = 2.0 ** -20
+                tb = np.round(tb / q) * q
+            if np.all(np.diff(tb) > 0) and not np.array_equal(tb, t):
+                return {"family": "warped_same_ends", "t": [float(v) for v in tb]}
     for _ in range(20):
         g = draw_grid(rng, n=n, families=[f for f in GRID_FAMILIES if f != "single"] if n > 2 else ("single",),
                       lattice=lattice)
@@ -307,3 +327,10 @@ def draw_schedule(rng, fspec, pf, n, kind=None):
     else:
         v = list(np.linspace(pf, min(p_i, pf + 0.3 * (p_i - pf)), n))
     return {"kind": kind, "v": [float(x) for x in v]}
+
+
+def grid_array(g):
+    """The array handed to the library for a grid spec (int64 when the spec says so)."""
+    if g.get("dtype") == "int64":
+        return np.array([int(round(v)) for v in g["t"]], dtype=np.int64)
+    return np.array(g["t"], dtype=float)
